@@ -124,13 +124,14 @@ FamF(rots) ==
                   bb == <<u[2], u[3], b3, b4>> IN
               Apart(bb)}}
 
+\* the family as a sequence of strata (identifiers are unique across strata by their first letter)
 FamMini ==
-  {o \in FamA(FALSE) : o.params[1].level = "op"}
-  \cup {o \in FamB(1) : o.params[1].shape \in {"plain", "url", "body"}}
-  \cup FamC(16, 1)
-  \cup {o \in FamE(1) : o.params[1].shape \in {"plain", "kebab"}}
+  << {o \in FamA(FALSE) : o.params[1].level = "op"},
+     {o \in FamB(1) : o.params[1].shape \in {"plain", "url", "body"}},
+     FamC(16, 1),
+     {o \in FamE(1) : o.params[1].shape \in {"plain", "kebab"}} >>
 
 Family == CASE Tier = "mini"     -> FamMini
-            [] Tier = "quick"    -> FamA(FALSE) \cup FamB(1) \cup FamC(4, 1) \cup FamD(6, 1) \cup FamE(1)
-            [] Tier = "thorough" -> FamA(TRUE) \cup FamB(6) \cup FamC(1, 3) \cup FamD(1, 4) \cup FamE(NC) \cup FamF(8)
+            [] Tier = "quick"    -> <<FamA(FALSE), FamB(1), FamC(4, 1), FamD(6, 1), FamE(1)>>
+            [] Tier = "thorough" -> <<FamA(TRUE), FamB(6), FamC(1, 3), FamD(1, 4), FamE(NC), FamF(8)>>
 =============================================================================
